@@ -17,6 +17,7 @@ import (
 	"encoding/json"
 	"fmt"
 	"hash/fnv"
+	"os"
 	"sort"
 	"strings"
 	"time"
@@ -102,7 +103,11 @@ func (r *reducer) clause(p *progen.Program, template bool) string {
 
 // minimise reduces a failing program and returns the canonical minimal program.
 func (r *reducer) minimise(p *progen.Program, template bool, clause string) *progen.Program {
-	red, _ := progen.Reduce(p, func(q *progen.Program) bool { return r.clause(q, template) == clause }, 4000)
+	// candidates may not introduce a phenomenon the original did not have (no sliding into another defect)
+	allowed := progen.Flags(p)
+	red, _ := progen.Reduce(p, func(q *progen.Program) bool {
+		return progen.FlagsWithin(q, allowed) && r.clause(q, template) == clause
+	}, 4000)
 	can := progen.Canonical(red)
 	if r.clause(can, template) == clause {
 		return can
@@ -132,6 +137,8 @@ type shardArg struct {
 	M    int    `json:"m"`
 	From int    `json:"from"`
 	To   int    `json:"to"`
+	// Deadline (unix seconds): programs reached after it are counted as skipped, not run
+	Deadline int64 `json:"deadline"`
 }
 
 type failRec struct {
@@ -154,6 +161,7 @@ type rec struct {
 	Agree     int64            `json:"agree,omitempty"`
 	Ambiguous int64            `json:"ambiguous,omitempty"`
 	RedTests  int64            `json:"red_tests,omitempty"`
+	Skipped   int64            `json:"skipped,omitempty"`
 	Hashes    []uint64         `json:"hashes,omitempty"`
 	Fail      *failRec         `json:"fail,omitempty"`
 	Msg       string           `json:"msg,omitempty"`
@@ -187,12 +195,20 @@ func progWorker(w *pool.W, arg json.RawMessage) {
 	b := bounds(sh.Tier, sh.Seed)
 	red := &reducer{cache: map[string]string{}}
 	cases := map[string]int64{}
-	var runs, agree, amb int64
+	var runs, agree, amb, skipped int64
 	hashes := map[uint64]bool{}
 	fails := map[string]*failRec{}
 	sampled := false
 
 	one := func(it progen.Item, modes []bool) {
+		if sh.Deadline > 0 && skipped == 0 && cases[it.Family]%64 == 0 && time.Now().Unix() > sh.Deadline {
+			skipped = 1
+		} else if skipped > 0 {
+			skipped++
+		}
+		if skipped > 0 {
+			return
+		}
 		if !w.Item(it.ID) {
 			return
 		}
@@ -276,10 +292,30 @@ func progWorker(w *pool.W, arg json.RawMessage) {
 	for h := range hashes {
 		hs = append(hs, h)
 	}
-	w.Emit(rec{Kind: "count", Cases: cases, Runs: runs, Agree: agree, Ambiguous: amb, RedTests: red.tests, Hashes: hs})
+	w.Emit(rec{Kind: "count", Cases: cases, Runs: runs, Agree: agree, Ambiguous: amb, RedTests: red.tests, Hashes: hs, Skipped: skipped})
 }
 
 // ---- parent ------------------------------------------------------------------------------------------
+
+// budget mirrors ev's --budget / tier default (ev keeps its deadline private); workers get the
+// absolute deadline and stop starting new programs after it.
+func budget(quick bool) time.Duration {
+	for i, a := range os.Args {
+		v := ""
+		if strings.HasPrefix(a, "--budget=") || strings.HasPrefix(a, "-budget=") {
+			v = a[strings.Index(a, "=")+1:]
+		} else if (a == "--budget" || a == "-budget") && i+1 < len(os.Args) {
+			v = os.Args[i+1]
+		}
+		if d, err := time.ParseDuration(v); err == nil && d > 0 {
+			return d
+		}
+	}
+	if quick {
+		return 6 * time.Minute
+	}
+	return 45 * time.Minute
+}
 
 func main() {
 	if pool.IsWorker() {
@@ -293,6 +329,7 @@ func main() {
 	}
 	c.SetBudget(6*time.Minute, 45*time.Minute)
 	b := bounds(c.Tier, c.Seed)
+	deadline := time.Now().Add(budget(c.Quick())).Unix()
 
 	var shards []pool.Shard
 	m := 96
@@ -300,7 +337,7 @@ func main() {
 		m = 256
 	}
 	for i := 0; i < m; i++ {
-		shards = append(shards, pool.Shard{Kind: "prog", Arg: shardArg{Tier: c.Tier, Seed: c.Seed, Kind: "mod", I: i, M: m}})
+		shards = append(shards, pool.Shard{Kind: "prog", Arg: shardArg{Tier: c.Tier, Seed: c.Seed, Kind: "mod", I: i, M: m, Deadline: deadline}})
 	}
 	n4 := progen.F4Count(b)
 	step := 400
@@ -312,11 +349,11 @@ func main() {
 		if to > n4 {
 			to = n4
 		}
-		shards = append(shards, pool.Shard{Kind: "prog", Arg: shardArg{Tier: c.Tier, Seed: c.Seed, Kind: "f4", From: from, To: to}})
+		shards = append(shards, pool.Shard{Kind: "prog", Arg: shardArg{Tier: c.Tier, Seed: c.Seed, Kind: "f4", From: from, To: to, Deadline: deadline}})
 	}
 
 	cases := map[string]int64{}
-	var runs, agree, amb, redTests int64
+	var runs, agree, amb, redTests, skipped int64
 	hashes := map[uint64]bool{}
 	failN := map[string]int64{}
 	pool.Run(shards, pool.Options{}, func(si int, rb json.RawMessage) {
@@ -331,6 +368,7 @@ func main() {
 			agree += r.Agree
 			amb += r.Ambiguous
 			redTests += r.RedTests
+			skipped += r.Skipped
 			for _, h := range r.Hashes {
 				hashes[h] = true
 			}
@@ -379,6 +417,9 @@ func main() {
 	c.Assume("a `continue` that meets a `switch` is accepted under both readings (PHP: switch counts as a loop level and `continue` on it acts like `break`; C-like: switch is transparent)")
 	c.Assume("functions are declared before their first call (origami does not hoist declarations; hoisting is not part of the statement)")
 	c.Assume("outside the bound: programs larger than the families, floats/null/mixed-type arithmetic in counters (C03 owns operator semantics), closures, generators, goto, references, default: not in last position")
+	if skipped > 0 {
+		c.NotExhaustive(fmt.Sprintf("internal deadline reached: %d programs of the bound were not run (%d were)", skipped, total))
+	}
 	if total < 1000 || len(hashes) < 200 || agree == 0 {
 		c.HarnessError("vacuous: %d programs, %d distinct reference outputs, %d agreeing runs", total, len(hashes), agree)
 	}
